@@ -99,7 +99,7 @@ RMUT = [mut("R2c4_rhs_scale_dropped_when_equal", "changeRange_i", r"changeRhs\(i
 inst("changeRange_i", "changeRange(int i, const R& newLhs, const R& newRhs, bool scale)", "range_i", "h.changeRange(i, v1, v2, scale != 0)",
      ["changeRange_i"], {"VALUE_DOMAIN": "(v1 == v2 || g_eq_calls == 0 || g_eq_res == 0)"}, RMUT)
 inst("changeRange_i_exactrhs", "changeRange(int i, const R& newLhs, const R& newRhs, bool scale) [right-hand side handed over unchanged for ALL arguments]",
-     "range_i", "h.changeRange(i, v1, v2, scale != 0)", ["changeRange_i"], {"VALUE_DOMAIN": "1"}, [], tier="thorough")
+     "range_i", "h.changeRange(i, v1, v2, scale != 0)", ["changeRange_i"], {"VALUE_DOMAIN": "1"}, [], tier="quick")
 inst("changeBounds_i", "changeBounds(int i, const R& newLower, const R& newUpper, bool scale) -> changeLower(i, ..), changeUpper(i, ..)", "bounds_i",
      "h.changeBounds(i, v1, v2, scale != 0)", ["changeBounds_i", "changeLower_i", "changeUpper_i"], {}, [
       mut("upper_scale_dropped", "changeBounds_i", "changeUpper(i, newUpper, scale)", "changeUpper(i, newUpper)"),
